@@ -1,5 +1,5 @@
 """C12 (fresh identifiers): allocator histories through the model and the real VarPool."""
-import os
+import os, re
 from . import common as C
 from . import declgen as G
 from .lean import lean_obligations
@@ -8,7 +8,7 @@ TRUSTED = [
     "Lean 4.33.0 kernel; axioms allowed: propext, Classical.choice, Quot.sound (audited per theorem)",
     "the hand-written model VP.getNameFix of VarPool.GetName/Get/GetChannel (tied by differential correspondence on request histories) and VP.toLowerCamel (ASCII identifiers)",
     "factgen's extraction of the reserved-word arrays of const.go",
-    "base-name derivation from arbitrary types (getBaseName) is exercised end-to-end (C04), not modelled beyond named types",
+    "base-name derivation from arbitrary types: BaseName.baseName, tied to getBaseName by B lines on constructed types (ASCII type names N<k>; non-ASCII names end to end only)",
 ]
 
 def check_c12(tier, seed):
@@ -64,6 +64,27 @@ def check_c12(tier, seed):
         R.violation("%s  [history #%d: %s -> %s]" % (bad[0], i, l[2:], o[2:]),
                     {"kind": "input", "failing_input": l, "index": i, "seed": seed, "implementation": o, "model": model[i], "violations": bad, "cases_failing": nbad,
                      "reproduce": "echo '%s' > ops; VERIF_OPS=ops VERIF_OUT=out go test -tags verif -run TestVerifDriver ./internal/kessoku" % l})
+    # base names: getBaseName of arbitrary types (what Get / GetChannel feed into GetName)
+    from . import typeconv_stream as TCS
+    brng = G.SplitMix64(seed * 2654435761 + 5)
+    blines = [TCS.gen_line_b(brng) for _ in range(3000 if tier == "quick" else 40000)]
+    bmodel = C.lean_driver(blines)
+    rc_b, bimpl, out_b = C.go_driver(repo_dir, "kessoku", blines)
+    if len(bimpl) < len(blines):
+        bimpl += ["NO-ANSWER"] * (len(blines) - len(bimpl))
+    bdiffs = [i for i, (a, b) in enumerate(zip(bmodel, bimpl)) if a != b]
+    R.oblige("correspondence: BaseName.baseName (KV/BaseName.lean) = VarPool.getBaseName on %d constructed types" % len(blines), not bdiffs,
+             "%d differ; first: %s" % (len(bdiffs), [(blines[i], bmodel[i], bimpl[i]) for i in bdiffs[:1]]))
+    bad_base = [(blines[i], b) for i, b in enumerate(bimpl) if b.startswith("B") and not re.match(r"^B [A-Za-z_][A-Za-z0-9_]*$", b)]
+    if bad_base:
+        R.violation("the base of a variable name is not an identifier: %s -> %r" % bad_base[0],
+                    {"kind": "input", "failing_input": bad_base[0][0], "observed": bad_base[0][1],
+                     "reproduce": "echo '%s' > ops; VERIF_OPS=ops VERIF_OUT=out go test -tags verif -run TestVerifDriver ./internal/kessoku" % bad_base[0][0]})
+    elif bdiffs:
+        i = bdiffs[0]
+        R.violation("the base-name model and getBaseName differ on %d types; every implementation answer is an identifier" % len(bdiffs),
+                    {"kind": "correspondence-broken", "correspondence": "BaseName.baseName vs VarPool.getBaseName", "case": blines[i], "model": bmodel[i], "impl": bimpl[i]})
+    R.coverage["base_names"] = {"types": len(blines), "distinct_bases": len(set(bimpl))}
     from . import p_e2e
     p_e2e.names_e2e(R, repo_dir, tier, seed)
     if diffs and not R.violations:
